@@ -21,13 +21,14 @@ def main(tier: str) -> int:
         pairs = [(a, b) for a in names for b in names if a != b and (hash((a, b)) % 5 == 0 or b in ("ServiceType", "CompositeType", "Any"))]
     conds = []
     for q, w in pairs:
-        P = dict(C16_Q=q, C16_W=w)
-        conds.append(Cond(M, "resolution_single_set", T, 120, P))
-        conds.append(Cond(M, "user_template_shadows_builtin_of_same_name", T, 120, P))
+        for user in ("1", "0"):
+            for zsub in ("1", "0"):
+                conds.append(Cond(M, "resolution_single_set", T, 120, dict(C16_Q=q, C16_W=w, C16_USER=user, C16_ZSUB=zsub)))
+    conds.append(Cond(M, "user_template_shadows_builtin_of_same_name", T, 120, dict(C16_Q="StructureType", C16_W="ServiceType")))
     conds.append(Cond(M, "instance_tests_agree", T, 120))
     conds.append(Cond(M, "additions_never_replace_silently", T, 300))
-    rep.bounds = dict(class_pairs=len(pairs), availability="per ancestor name on both chains: absent | present | present + same-stem copy in a sub-folder sorted "
-                      "before/after | + a non-template file", cache="cold, or warmed by a lookup of the second class", template_set="user directories or built-ins (FIND_FIRST)",
+    rep.bounds = dict(class_pairs=len(pairs), availability="per ancestor name on both chains: absent | present; one name additionally with a same-stem copy in a sub-folder sorted "
+                      "before/after the top level and a non-template sibling", cache="cold, or warmed by a lookup of the second class", template_set="user directories or built-ins (FIND_FIRST)",
                       instance_tests="all pairs (test class, value class) of the real pydsdl class graph", additions="filters/tests/globals: existing, prefixed, Jinja "
                       "built-in, reserved, language-global and fresh names x overwrite flag")
     rep.assumptions = ["type templates come from ONE set (DSDLCodeGenerator uses FIND_FIRST); a nearer built-in vs. a farther user template cannot occur there and is not demanded",
